@@ -1485,6 +1485,30 @@ func ruleGRDscan(w *World, r *Report) {
 			r.Cond(okArg, "GRD-scan", fmt.Sprintf("%s:resync-start#%d", shortName(caller.Obj), k), w.Pos(c.Pos()), "the scan starts at the last valid offset (the value the repair would truncate to)", shortName(caller.Obj)+" starts the forward scan at a position other than the last valid offset (for example past the frame that just failed, computed from its own length field): a damaged length field that still points inside the file makes the scan jump over intact frames, whose commands are silently dropped")
 		}
 	}
+	// after ANY frame that failed to read, the next frame is read at a position the scan found, never at one computed
+	// from the failed frame (its length field is exactly what may be damaged): from the failure edge of a ReadFrame in
+	// the replay loop no path leads to the next ReadFrame without resyncAOF
+	for _, caller := range w.ModuleFuncs() {
+		if relPkg(caller.Obj) != "pkg/engine" {
+			continue
+		}
+		cf := w.SSAFunc(caller.Obj)
+		if cf == nil || len(findInstrs(cf, func(in ssa.Instruction) bool { return isModCall(in, "pkg/engine", "resyncAOF") })) == 0 {
+			continue
+		}
+		isRead := func(in ssa.Instruction) bool { return isModCall(in, "pkg/persistence", "ReadFrame") }
+		isResync := func(in ssa.Instruction) bool { return isModCall(in, "pkg/engine", "resyncAOF") }
+		for i, rd := range findInstrs(cf, isRead) {
+			bad := false
+			var wit []ssa.Instruction
+			for e := range failureEdges(cf, rd.(*ssa.Call)) {
+				if f, wv := (pathQuery{fn: cf, target: isRead, avoid: isResync}).find(ipos{e.from.Succs[e.succ], -1}); f {
+					bad, wit = true, wv
+				}
+			}
+			r.Cond(!bad, "GRD-scan", fmt.Sprintf("%s:frame-read#%d:failure-leads-to-resync", shortName(caller.Obj), i+1), w.Pos(rd.Pos()), "after a failed frame the next frame is read only behind resyncAOF", shortName(caller.Obj)+" can go on to read the next frame after a failed one without the forward scan (for instance by stepping over the failed frame by its own reported size): a damaged length field that still points inside the file makes replay jump over intact frames, whose commands are silently dropped", w.witness(wit)...)
+		}
+	}
 	// the window read happens at the scan's own position: whatever else in the loop uses the same file (probing a
 	// candidate with ReadFrame, seeking to it) moves the shared offset, so each window read must be preceded, in its
 	// own iteration, by a Seek
